@@ -238,7 +238,7 @@ def run_history(gname, hist):
 
 def plan(tier, seed):
     if tier == "quick":
-        return dict(full_depth=3, window_depth=4, window=(seed, 16))
+        return dict(full_depth=3, window_depth=4, window=(seed, 24))
     return dict(full_depth=4, window_depth=5, window=(0, 24))
 
 
